@@ -49,7 +49,7 @@ COLS = ("x", "y", "z", "r")
 OFFSETS = (0, 1, 2, 7, 1000)
 KINDS = ("text", "bytes", "path-lib", "path-harness", "textfile")
 
-V = [0.0, 1.0, -1.0, 0.5, 0.03125, 0.00004, 0.00005, 0.00006, -0.00004, -0.00005, 1e-7, 0.99995, 1234.5678, 123456.789,
+V = [0.0, 1.0, -1.0, 0.5, 0.03125, 0.00004, 0.00005, 0.00006, -0.00004, -0.00005, -0.00007, 1e-7, 0.99995, 1234.5678, 123456.789,
      2000000.125, 1e20, 3.4e38]
 TYPES = [0, 1, 2, 3, 7, 255, 1000, 2**31 - 1]
 COMMENT_ALPHABET = ["a", "two words", "  lead", "", "   ", "# hash", "trail  ", "id type", "café µm"]
@@ -265,6 +265,37 @@ def check_values(case, R):
     if any(swcio.is_tie4(v) for v in child + root):
         R.note("cases-with-exact-4th-decimal-tie")
     R.outcome(got["x"], got["y"], got["z"], got["r"])
+
+
+SWEEP_BASES = [0.0, 1.0, -1.0, 0.5, -0.03125, 99.9999, -1234.5]
+SWEEP_STEP = 0.5e-5  # half of the 5th decimal: every 4th-decimal rounding boundary within the window is crossed on both sides
+SWEEP_HALF = 60  # window = base +- 3e-4
+
+
+def check_value_sweep(case, R):
+    """case = [base index, k, column]: one coordinate/radius of the child is base + k * 0.5e-5 (float32), everything else
+    tagged; closes the value axis around zero, around the sign change and around every rounding boundary of a window."""
+    import io
+
+    from swcgeom.core import Tree
+
+    b, k, col = int(case[0]), int(case[1]), int(case[2])
+    v = swcio.f32(SWEEP_BASES[b] + k * SWEEP_STEP)
+    vals = tagged(2)
+    vals[COLS[col]] = [vals[COLS[col]][0], v]
+    R.state(repr(float(v)), col)
+    t = mk([-1, 0], vals)
+    orig = orig_of(t)
+    ok, text = R.impl("to_swc", t.to_swc, source=False)
+    if not ok:
+        return
+    for kind, mkse in (("text", lambda: io.StringIO(text)), ("bytes", lambda: io.BytesIO(text.encode()))):
+        ok, t2 = R.impl(f"from_swc:{kind}", Tree.from_swc, mkse())
+        if ok:
+            judge_tree(R, f"value-sweep:{kind}", orig, observe_tree(t2), text)
+            R.outcome(col, observe_tree(t2)[COLS[col]][1])
+    if swcio.is_tie4(v):
+        R.note("cases-with-exact-4th-decimal-tie")
 
 
 def check_types(case, R):
@@ -688,8 +719,17 @@ def spaces(tier, seed):
             for tri in itertools.product(elems, repeat=3):
                 yield [list(e) for e in tri]
 
+    def gen_sweep():
+        for k in sorted(range(-SWEEP_HALF, SWEEP_HALF + 1), key=abs):
+            for b in range(len(SWEEP_BASES)):
+                for col in range(4):
+                    yield [b, k, col]
+
     out = _base_spaces(quick, lt_hi, depth, gen_shapes, gen_values, gen_types, gen_comments, gen_history, gen_big)
     out += [
+        Space.of("value-sweep", gen_sweep, check_value_sweep,
+                 bounds={"bases": SWEEP_BASES, "step": SWEEP_STEP, "steps_each_side": SWEEP_HALF, "columns": list(COLS),
+                         "note": "every float32 value base + k*0.5e-5, |k| <= 60: both signs around zero, every 4th-decimal boundary of the window"}),
         Space.of("sizes", gen_sizes, check_size, bounds={"chain_nodes": [1, size_hi], "comb_nodes": [2, size_hi // 4], "every_size": True,
                                                           "source_kinds": ["text", "bytes", "path-lib"]}, case_timeout=600.0),
         Space.of("edits", gen_edits, check_edit,
@@ -712,7 +752,7 @@ def _base_spaces(quick, lt_hi, depth, gen_shapes, gen_values, gen_types, gen_com
                  bounds={"LT_max_nodes": lt_hi, "id_offsets": list(OFFSETS), "LT7_id_offsets": None if quick else [1], "source_kinds": list(KINDS),
                          "table_reads": ["read_swc", "read_swc(reset_index=False)"]}),
         Space.of("values", gen_values, check_values,
-                 bounds={"alphabet": V, "columns": list(COLS), "combination": "every triple of columns, the fourth 0.5" if quick else "full product 17^4"}),
+                 bounds={"alphabet": V, "columns": list(COLS), "combination": "every triple of columns, the fourth 0.5" if quick else f"full product {len(V)}^4"}),
         Space.of("types", gen_types, check_types, bounds={"types": TYPES, "nodes": 2}),
         Space.of("comments", gen_comments, check_comments,
                  bounds={"alphabet": COMMENT_ALPHABET, "max_len": 2, "source": [True, False, "custom", ""], "comments_flag": [True, False],
